@@ -163,6 +163,9 @@ func (e *Enc) encodeTop() {
 		}
 	}
 	if e.con != nil {
+		for _, n := range e.con.Notes {
+			e.note("stated by the contract of " + e.P.fnDisplay(fn) + ": " + n)
+		}
 		env := f.specEnv(heap, nil, nil)
 		for _, g := range e.con.Ghosts {
 			l, _, err := env.ghostLoc(g)
